@@ -165,8 +165,10 @@ impl Context {
         ExchangeRatesCache::use_test_rates();
     }
 
+    /// A runtime error that is raised outside of the execution of an input, e.g. by a
+    /// failing command. It does not point at any (previously executed) instruction.
     pub fn runtime_error(&self, kind: RuntimeErrorKind) -> RuntimeError {
-        self.interpreter.runtime_error(kind)
+        RuntimeError::without_backtrace(kind)
     }
 
     pub fn variable_names(&self) -> impl Iterator<Item = CompactString> + '_ {
